@@ -6,14 +6,17 @@ input values, summed per currency with beancount's data model), never from the c
 
 E  tables   one amount-like column (Amount, Position or Inventory): every column of 0..3 (quick) / 0..4 (thorough)
             cells over the datatype's alphabet {NULL, one or two of three currencies, zero amounts, amounts with
-            more / fewer digits than the display precision, multi-lot inventories, lots that cancel, the empty
-            inventory}, in five layouts: alone, between a plain int and a plain str column, before a plain int column,
+            more / fewer digits than the display precision, amounts of a thousand and more (where a formatter that renders
+            thousands separators would write them), multi-lot inventories, one currency held both at cost (two lots) and
+            without cost in one inventory, lots that cancel, the empty inventory}, in five layouts: alone, between a plain int and a plain str column, before a plain int column,
             after / before a plain column that SHARES ITS NAME (BQL allows duplicate names), before a plain int
             column; two (quick) / two and three (thorough) amount-like columns of every datatype combination with
             plain columns in between, 0..2 rows over reduced alphabets.  Each table without a formatter, with the default
             formatter of a second ledger whose most common and maximum digit counts differ, with that ledger's
-            formatter built with Precision.MAXIMUM, and with
-            the DisplayFormatter of a loaded ledger (``options['dcontext'].build()``, as ``run_query`` does).
+            formatter built with Precision.MAXIMUM, with
+            the DisplayFormatter of a loaded ledger (``options['dcontext'].build()``, as ``run_query`` does), and with the
+            formatter of the same ledger loaded with ``option "render_commas" "TRUE"`` (a RENDERING preference: the precision
+            is unchanged, so the expected cells are the same numbers).
 O  from the statement:
    (a) same number of rows; (b) the output columns are, in order, for a plain input column the same
    (name, datatype) with identical cells, for an amount-like column ``x`` a run of decimal columns named
@@ -48,6 +51,8 @@ ASSUMPTIONS = [
     'without a formatter cells are compared numerically (trailing zeros are not compared)',
     'the precision a formatter quantises to is the one it was BUILT with: build() = most common digits of the ledger (USD 2, HOOL 3, EUR 0), '
     'build(precision=Precision.MAXIMUM) = the most digits seen (second ledger: USD 4, HOOL 5, EUR 1 against 2 / 3 / 0 most common); currencies unknown to the formatter are outside',
+    'rendering preferences carried by a formatter (thousands separators of a ledger with option "render_commas") are not part of the display precision: '
+    'the cells expected with the formatter "commas" are those expected with the formatter "default"',
     'column names may repeat (SELECT a AS x, b AS x): the oracle is applied per column POSITION; two amount-like columns of one name are never placed '
     'next to each other because their runs of "x (CUR)" columns could not be told apart',
     'plain columns must come back as the identical objects / equal values of the same type; the input description and rows are not checked for mutation',
@@ -63,6 +68,32 @@ def _amountlike_types():
 
 AMOUNTLIKE_TYPES = _amountlike_types()
 
+# The formatters of vt.ref.render plus one that carries a RENDERING preference: the formatter of the first ledger loaded with
+# ``option "render_commas" "TRUE"`` (thousands separators), built with build() as run_query does.  The property speaks of the
+# display PRECISION only: how the formatter would render the number as text must not matter for the cell.
+FORMATTER_KINDS = R.FORMATTER_KINDS + ('commas',)
+_COMMAS = []
+
+
+def formatter(kind):
+    """-> (DisplayFormatter or None, {currency: fractional digits it must quantise to})"""
+    if kind != 'commas':
+        return R.formatter(kind)
+    if not _COMMAS:
+        from beancount import loader
+        entries, errors, options = loader.load_string('option "render_commas" "TRUE"\n' + R.LEDGER)
+        if errors:
+            raise RuntimeError(f'harness ledger does not load: {errors!r}')
+        fmt = options['dcontext'].build()
+        if ',' not in fmt.format(D('1234567.5'), 'USD'):
+            raise RuntimeError('harness: the formatter of the render_commas ledger renders no thousands separators')
+        for cur in ('USD', 'HOOL', 'EUR'):
+            got = options['dcontext'].quantize(D('1.23456789'), cur).as_tuple().exponent
+            if got != -R.PRECISION[cur]:
+                raise RuntimeError(f'harness: formatter commas quantises {cur} to {-got} digits, the table says {R.PRECISION[cur]}')
+        _COMMAS.append((fmt, R.PRECISION))
+    return _COMMAS[0]
+
 
 def _rot(seq, seed):
     return seq[seed % len(seq)]
@@ -74,19 +105,19 @@ def alphabets(seed):
     o2 = _rot(['-2', '-3', '-11'], seed)
     c3, c4 = C('3.00', 'USD'), C('4.00', 'USD')
     full = {
-        'amount': [None, A(o1, 'USD'), A('3.14159', 'USD'), A('-0.1234', 'USD'), A('0', 'USD'), A(o2, 'EUR'), A('1.123', 'HOOL'), A('-0.0004', 'HOOL'), A('0.50', 'EUR')],
-        'position': [None, P('1.123', 'HOOL', C('2.50', 'USD', label='lbl')), P('-3', 'USD'), P('0', 'EUR'), P('2', 'HOOL', c3), P('3.14159', 'USD'),
+        'amount': [None, A(o1, 'USD'), A('1234.14159', 'USD'), A('-0.1234', 'USD'), A('0', 'USD'), A(o2, 'EUR'), A('1.123', 'HOOL'), A('-0.0004', 'HOOL'), A('0.50', 'EUR')],
+        'position': [None, P('1.123', 'HOOL', C('2.50', 'USD', label='lbl')), P('-3', 'USD'), P('0', 'EUR'), P('2', 'HOOL', c3), P('1234.14159', 'USD'),
                      P(o2, 'EUR'), P('-0.1234', 'USD')],
         'inventory': [None, I(), I(P(o1, 'USD')), I(P('1', 'USD'), P('2.5', 'HOOL', c3)),
-                      I(P(o2, 'EUR'), P('2', 'HOOL', c3), P('1', 'HOOL', c4)),              # two lots of one currency
+                      I(P(o2, 'EUR'), P('2', 'HOOL', c3), P('1', 'HOOL', c4), P('4', 'HOOL')),   # three lots of one currency: two at cost, one held without cost
                       I(P('1', 'HOOL', c3), P('-1', 'HOOL', c4)),                           # lots that cancel
                       I(P('0.0004', 'HOOL', c3), P('0.0004', 'HOOL', c4), P('3.14159', 'USD')),   # sum quantises differently from the lots
-                      I(P('7', 'EUR'), P('-8.80750', 'USD'))],
+                      I(P('7', 'EUR'), P('-1008.80750', 'USD'))],
     }
     reduced = {
         'amount': [None, A(o1, 'USD'), A(o2, 'EUR'), A('0', 'USD')],
-        'position': [None, P('2', 'HOOL', c3), P('-3', 'USD'), P('3.14159', 'USD')],
-        'inventory': [I(), I(P('1', 'USD'), P('2.5', 'HOOL', c3)), I(P(o2, 'EUR'), P('2', 'HOOL', c3), P('1', 'HOOL', c4)), None],
+        'position': [None, P('2', 'HOOL', c3), P('-3', 'USD'), P('1234.14159', 'USD')],
+        'inventory': [I(), I(P('1', 'USD'), P('2.5', 'HOOL', c3)), I(P(o2, 'EUR'), P('2', 'HOOL', c3), P('1', 'HOOL')), None],
     }
     return full, reduced
 
@@ -140,10 +171,38 @@ def fmt_kind(fmt):
     return {True: 'default', False: 'none'}.get(fmt, fmt)
 
 
-def check(cols, rows, fmt, stats):
-    """fmt: one of R.FORMATTER_KINDS.  -> [(locus, message)]"""
+def expectation(cols, rows):
+    """What the statement fixes for a table whatever the formatter: (input description, {column position: (values, per-row
+    {currency: units summed over lots}, per-row {currency: number of lots}, row frequency, lot frequency, currencies with non-zero
+    units)}), from beancount's data model only."""
     desc = [Column(n, R.DTYPES[t]) for n, t in cols]
-    dformat, prec = R.formatter(fmt_kind(fmt))
+    per = {}
+    for j, (name, t) in enumerate(cols):
+        if t not in AMOUNTLIKE:
+            continue
+        values = [r[j] for r in rows]
+        rowfreq, lotfreq, nonzero = collections.Counter(), collections.Counter(), set()
+        sums, nlots = [], []
+        for v in values:
+            s, nl = {}, {}
+            for cur, num in lots(v):
+                s[cur] = s.get(cur, D(0)) + num
+                nl[cur] = nl.get(cur, 0) + 1
+                lotfreq[cur] += 1
+            for cur, num in s.items():
+                rowfreq[cur] += 1
+                if num != 0:
+                    nonzero.add(cur)
+            sums.append(s)
+            nlots.append(nl)
+        per[j] = (values, sums, nlots, rowfreq, lotfreq, nonzero)
+    return desc, per
+
+
+def check(cols, rows, fmt, stats, pre=None):
+    """fmt: one of FORMATTER_KINDS; pre: expectation(cols, rows) when already computed.  -> [(locus, message)]"""
+    desc, per = pre if pre is not None else expectation(cols, rows)
+    dformat, prec = formatter(fmt_kind(fmt))
     try:
         ocols, orows = numberify_results(desc, rows, dformat)
     except Exception as e:    # noqa: BLE001 - any crash is a finding
@@ -180,19 +239,7 @@ def check(cols, rows, fmt, stats):
         stats['converted_columns'] += 1
         stats['currency_columns'] += len(curs)
         stats[f'currency_columns_{min(len(curs), 3)}'] += 1
-        values = [r[j] for r in rows]
-        rowfreq, lotfreq, nonzero = collections.Counter(), collections.Counter(), set()
-        sums = []
-        for v in values:
-            s = {}
-            for cur, num in lots(v):
-                s[cur] = s.get(cur, D(0)) + num
-                lotfreq[cur] += 1
-            for cur, num in s.items():
-                rowfreq[cur] += 1
-                if num != 0:
-                    nonzero.add(cur)
-            sums.append(s)
+        values, sums, nlots, rowfreq, lotfreq, nonzero = per[j]
         names_ = [c for c, _ in curs]
         if len(set(names_)) != len(names_):
             probs.append((f'duplicate-currency:{t}', f'column {name!r}: currency columns {names_} repeat a currency'))
@@ -223,7 +270,7 @@ def check(cols, rows, fmt, stats):
                     continue
                 total = s[cur]
                 stats['cells_present'] += 1
-                if len([1 for c, _ in lots(values[i]) if c == cur]) > 1:
+                if nlots[i][cur] > 1:
                     stats['cells_summed_over_lots'] += 1
                 if dformat is None:
                     ok = (cell == total) if cell is not None else (total == 0)
@@ -257,7 +304,7 @@ def make_case(cols, rows, fmt):
 
 
 def size_key(case):
-    return (len(case['rows']), len(case['columns']), len(repr(case['rows'])), R.FORMATTER_KINDS.index(fmt_kind(case['formatter'])))
+    return (len(case['rows']), len(case['columns']), len(repr(case['rows'])), FORMATTER_KINDS.index(fmt_kind(case['formatter'])))
 
 
 def record(acc, fp, what, case):
@@ -285,10 +332,11 @@ def shard(shard_no, nshards, seed, thorough):
         acc.count('tables')
         if any(v is not None and lots(v) for r in rows for v, (_, t) in zip(r, cols) if t in AMOUNTLIKE):
             acc.count('tables_with_units')
-        for fmt in R.FORMATTER_KINDS:
+        pre = expectation(cols, rows)
+        for fmt in FORMATTER_KINDS:
             acc.count('cases')
             acc.count('cases_formatter_' + fmt)
-            for locus, msg in check(cols, rows, fmt, st):
+            for locus, msg in check(cols, rows, fmt, st, pre):
                 fp = locus if '@' in locus else f'numberify:{locus}'
                 record(acc, fp, f'{msg} -- {describe(cols, rows, fmt)}', make_case(cols, rows, fmt))
         if idx % 5003 == 0:
@@ -377,6 +425,8 @@ def replay(case):
 
 def run(ctx):
     R.display_context()
+    for kind in FORMATTER_KINDS:     # load the ledgers once, before the pool forks
+        formatter(kind)
     acc = run_shards(shard, ctx.jobs, ctx.seed, ctx.thorough)
     n = acc.n
     full, reduced = alphabets(ctx.seed)
@@ -386,11 +436,12 @@ def run(ctx):
         'traces_validated_against_impl': n['completed'],
         'evaluations': n['cells'] + n['plain_cells'],
         'distinct_nontrivial': n['tables_with_units'],
-        'rule': 'a case is one (table, formatter: none / default build() / build() and build(precision=MAXIMUM) over a ledger whose common and maximum digits differ); tables are enumerated completely: one amount-like column of every datatype, every column of '
-                '0..N cells over the full alphabet in 3 layouts, and every combination of 2 (thorough: and 3) amount-like datatypes with 0..2 rows over '
+        'rule': 'a case is one (table, formatter: none / default build() / build() and build(precision=MAXIMUM) over a ledger whose common and maximum digits differ / '
+                'build() over the first ledger with option render_commas); tables are enumerated completely: one amount-like column of every datatype, every column of '
+                '0..N cells over the full alphabet in 5 layouts, and every combination of 2 (thorough: and 3) amount-like datatypes with 0..2 rows over '
                 'the reduced alphabets; distinct & non-trivial = distinct tables holding at least one lot; evaluations = output cells compared',
         'exhaustive': True,
-        'bound': f'one amount-like column: <= {4 if ctx.thorough else 3} cells; {"2 and 3" if ctx.thorough else "2"} amount-like columns: <= 2 rows; without formatter and with 3 formatters',
+        'bound': f'one amount-like column: <= {4 if ctx.thorough else 3} cells; {"2 and 3" if ctx.thorough else "2"} amount-like columns: <= 2 rows; without formatter and with 4 formatters (one rendering thousands separators)',
         'tables': n['tables'], 'calls': n['cases'], 'calls_completed': n['completed'], 'calls_raising': n['cases'] - n['completed'],
         'plain_columns_compared': n['plain_columns'], 'plain_cells_compared': n['plain_cells'],
         'amount_like_columns_converted': n['converted_columns'], 'currency_columns_produced': n['currency_columns'],
@@ -403,8 +454,8 @@ def run(ctx):
         'alphabet': {t: [R.show(v) for v in full[t]] for t in AMOUNTLIKE},
         'alphabet_multi_column': {t: [R.show(v) for v in reduced[t]] for t in AMOUNTLIKE},
         'display_precision': {'default': {c: R.PRECISION[c] for c in ('USD', 'HOOL', 'EUR')}, 'mixed-common': R.PRECISION_MIXED_COMMON,
-                              'mixed-maximum': R.PRECISION_MIXED_MAXIMUM},
-        'calls_by_formatter': {k: n['cases_formatter_' + k] for k in R.FORMATTER_KINDS},
+                              'mixed-maximum': R.PRECISION_MIXED_MAXIMUM, 'commas': {c: R.PRECISION[c] for c in ('USD', 'HOOL', 'EUR')}},
+        'calls_by_formatter': {k: n['cases_formatter_' + k] for k in FORMATTER_KINDS},
         'samples': acc.samples,
     }
     nrq, vrq = check_run_query()
